@@ -35,9 +35,9 @@ func permutations(n int) [][]int {
 // Indices 3 and 4 are the oneof blocks.
 func c15Items() [][]*dsl.Field {
 	return [][]*dsl.Field{
-		{{Name: "Scal", Num: 1, T: dsl.String, Comment: " Scal is the scalar"}, {Name: "Hidden", Num: 8, T: dsl.String, Comment: " Hidden is excluded by the configuration"}},
+		{{Name: "Scal", Num: 1, T: dsl.String, Comment: " Scal is the scalar"}, {Name: "Hidden", Num: 8, T: dsl.String, Comment: " Hidden is excluded by the configuration"}, {Name: "PermID", Num: 10, T: dsl.String, JSONTag: dsl.S("perm_id_upper"), Comment: " PermID and PermId differ in case only"}},
 		{{Name: "Lst", Num: 2, T: dsl.String, Card: dsl.Repeated, Comment: " Lst is the list"}, {Name: "Leaf", Num: 9, T: dsl.Msg, Ref: "Leaf", Embed: true, Nullable: dsl.B(false), Comment: " Leaf is embedded"}},
-		{{Name: "Nest", Num: 3, T: dsl.Msg, Ref: "Leaf", Comment: " Nest is the nested message"}},
+		{{Name: "Nest", Num: 3, T: dsl.Msg, Ref: "Leaf", Comment: " Nest is the nested message"}, {Name: "PermId", Num: 11, T: dsl.Int64, JSONTag: dsl.S("perm_id_lower"), Comment: " PermId is the other one"}},
 		{{Name: "z_str", Num: 4, T: dsl.String, Oneof: "Zeta", Comment: " z_str branch"}, {Name: "z_leaf", Num: 5, T: dsl.Msg, Ref: "Leaf", Oneof: "Zeta", Comment: " z_leaf branch"}},
 		{{Name: "a_num", Num: 6, T: dsl.Int32, Oneof: "Alpha", Comment: " a_num branch"}, {Name: "a_flag", Num: 7, T: dsl.Bool, Oneof: "Alpha", Comment: " a_flag branch"}},
 	}
@@ -49,7 +49,7 @@ func c15File(itemPerm []int, intra [2]bool, msgPerm []int) *dsl.File {
 	for _, ii := range itemPerm {
 		it := items[ii]
 		fs := append([]*dsl.Field{}, it...)
-		if ii < 3 && len(fs) == 2 && intra[0] != intra[1] {
+		if ii < 3 && len(fs) >= 2 && intra[0] != intra[1] {
 			// the companion field (excluded / embedded) moves to the other side of its neighbour
 			fs[0], fs[1] = fs[1], fs[0]
 		}
@@ -65,7 +65,10 @@ func c15File(itemPerm []int, intra [2]bool, msgPerm []int) *dsl.File {
 	leaf := &dsl.Message{Name: "Leaf", Comment: " Leaf is small", Fields: []*dsl.Field{{Name: "S", Num: 1, T: dsl.String}, {Name: "I", Num: 2, T: dsl.Int32}}}
 	twin := &dsl.Message{Name: "Twin", Comment: " Twin is a second root", Fields: []*dsl.Field{{Name: "Who", Num: 1, T: dsl.String}, {Name: "Inner", Num: 2, T: dsl.Msg, Ref: "Leaf", Nullable: dsl.B(false)}, {Name: "Count", Num: 3, T: dsl.Int64}, {Name: "Nest", Num: 4, T: dsl.Msg, Ref: "Leaf", Comment: " Nest of the twin (same field name and type as Perm.Nest)"}}}
 	unused := &dsl.Message{Name: "Bystander", Fields: []*dsl.Field{{Name: "B", Num: 1, T: dsl.Bool}}}
-	msgs := []*dsl.Message{perm, leaf, twin, unused}
+	// a third root whose name differs from Twin's only in letter case, with two fields that differ only in case
+	twin2 := &dsl.Message{Name: "TWin", Comment: " TWin differs from Twin in case only", Fields: []*dsl.Field{
+		{Name: "UserID", Num: 1, T: dsl.String, JSONTag: dsl.S("user_id_upper")}, {Name: "UserId", Num: 2, T: dsl.String, JSONTag: dsl.S("user_id_lower")}, {Name: "Nest", Num: 3, T: dsl.Msg, Ref: "Leaf"}}}
+	msgs := []*dsl.Message{perm, leaf, twin, unused, twin2}
 	f := &dsl.File{GettersOff: true}
 	for _, mi := range msgPerm {
 		f.Messages = append(f.Messages, msgs[mi])
@@ -94,7 +97,7 @@ func checkC15(r *Run) int {
 	}
 	defer r.Mod.Cleanup()
 	id5 := []int{0, 1, 2, 3, 4}
-	id4 := []int{0, 1, 2, 3}
+	id4 := []int{0, 1, 2, 3, 4}
 	type variant struct {
 		item  []int
 		intra [2]bool
@@ -119,7 +122,24 @@ func checkC15(r *Run) int {
 	for _, in := range [][2]bool{{true, false}, {false, true}, {true, true}} {
 		vs = append(vs, variant{id5, in, id4, "branch-order-within-block", false})
 	}
-	for _, mp := range permutations(4)[1:] {
+	msgPerms := permutations(5)[1:]
+	if r.Tier != "thorough" {
+		// quick: every transposition and every rotation of the five messages, plus a fifth of the rest
+		var sel [][]int
+		for i, mp := range msgPerms {
+			moved := 0
+			for k, x := range mp {
+				if x != k {
+					moved++
+				}
+			}
+			if moved == 2 || i%5 == 0 {
+				sel = append(sel, mp)
+			}
+		}
+		msgPerms = sel
+	}
+	for _, mp := range msgPerms {
 		vs = append(vs, variant{id5, [2]bool{}, mp, "message-order", false})
 		if r.Tier == "thorough" {
 			vs = append(vs, variant{[]int{2, 0, 1, 3, 4}, [2]bool{}, mp, "message-order+field-order", false})
@@ -142,12 +162,12 @@ func checkC15(r *Run) int {
 			f := c15File(v.item, v.intra, v.msg)
 			f.Pkg, f.Name = "perm", "perm.proto"
 			if v.split {
-				sc := space.Split(&space.Case{Label: "x", File: f, Cfg: space.BaseConfig("Perm", "Twin"), Tags: map[string]string{}})
+				sc := space.Split(&space.Case{Label: "x", File: f, Cfg: space.BaseConfig("Perm", "Twin", "TWin"), Tags: map[string]string{}})
 				if sc != nil {
 					f = sc.File
 				}
 			}
-			cfg := space.BaseConfig("Perm", "Twin")
+			cfg := space.BaseConfig("Perm", "Twin", "TWin")
 			cfg.Sort = srt
 			cfg.Exclude = []string{"Perm.Hidden"}
 			// options addressed by full path below the two roots' equally named fields
